@@ -230,6 +230,12 @@ class _ClassRef:
         self.name = name
 
 
+# builtin exception hierarchy (the part handlers in this repository can name)
+_EXC_PARENTS = {'UnboundLocalError': ('NameError',), 'KeyError': ('LookupError',), 'IndexError': ('LookupError',), 'ZeroDivisionError': ('ArithmeticError',), 'OverflowError': ('ArithmeticError',),
+                'FloatingPointError': ('ArithmeticError',), 'FileNotFoundError': ('OSError', 'IOError'), 'PermissionError': ('OSError', 'IOError'), 'ModuleNotFoundError': ('ImportError',),
+                'UnicodeDecodeError': ('UnicodeError', 'ValueError'), 'UnicodeError': ('ValueError',), 'NotImplementedError': ('RuntimeError',), 'RecursionError': ('RuntimeError',)}
+
+
 class Closure:
     def __init__(self, fn, ev, selfobj=None, outer=None, env=None):
         self.fn, self.ev, self.selfobj = fn, ev, selfobj
@@ -638,6 +644,11 @@ class SymEval:
                     return sorted(x)
                 raise Opaque('sorted() of symbolic values')
             return _sorted
+        if n.id in p.env.get('__global_names__', ()):
+            # declared `global`, never bound by the module or by an earlier call on this evaluator
+            if self.try_depth > 0:
+                raise _PyRaise('NameError')
+            raise WouldRaise('NameError: global name %r is read before anything assigned it' % n.id)
         if self.fn_stack:
             fn = self.fn_stack[-1]
             loc = getattr(fn, '_am_locals', None)
@@ -660,12 +671,17 @@ class SymEval:
         if isinstance(n.op, ast.UAdd):
             return v
         if isinstance(n.op, ast.Not):
-            if isinstance(v, bool):
-                return not v
+            d = self._decided(v)
+            if d is not None:
+                return not d
             return sp.Not(v)
         if isinstance(n.op, ast.Invert):
-            if isinstance(v, bool):
+            if isinstance(v, (bool, np.bool_)):
                 return not v
+            if is_arr(v) and v.dtype == bool:
+                return ~v
+            if is_arr(v) and v.dtype == object and all(isinstance(e, (bool, np.bool_)) or e is sp.true or e is sp.false for e in v.ravel()):
+                return np.array([not bool(e) for e in v.ravel()], dtype=bool).reshape(v.shape)
             return vmap(sp.Not, v)
         raise Opaque(norm(n))
 
@@ -1422,9 +1438,10 @@ class SymEval:
         raise _Continue(p)
 
     def _handler_for(self, s, name):
+        name = (name or '').split('.')[-1] or name
         for cand in s.handlers:
             tys = [] if cand.type is None else ([norm(t) for t in cand.type.elts] if isinstance(cand.type, ast.Tuple) else [norm(cand.type)])
-            if cand.type is None or name in tys or 'Exception' in tys or 'BaseException' in tys:
+            if cand.type is None or name in tys or 'Exception' in tys or 'BaseException' in tys or any(t in tys for t in _EXC_PARENTS.get(name, ())):
                 return cand
         return None
 
